@@ -114,7 +114,7 @@ def match_known(ob, prop, known):
 
 # ------------------------------------------------------------------------------ helpers the rules do not know
 # Rules that follow calls themselves (their verdict does not depend on where a piece of code lives):
-HELPER_AWARE = {'CAPACITY', 'IN-RANGE', 'INDEX-COVER', 'WINDOW-FORM', 'CTOR-AGREE', 'NARROW-SCOPE', 'EFFECT', 'EFFECT-IR', 'ACCUM-ONCE', 'KEY-ARITH', 'ITER-INVALIDATION', 'OWN-ALIAS', 'FIELD-COVER', 'SENTINEL-EXCLUDED',
+HELPER_AWARE = {'CAPACITY', 'IN-RANGE', 'INDEX-COVER', 'CTOR-AGREE', 'NARROW-SCOPE', 'EFFECT', 'EFFECT-IR', 'ACCUM-ONCE', 'KEY-ARITH', 'ITER-INVALIDATION', 'OWN-ALIAS', 'FIELD-COVER', 'SENTINEL-EXCLUDED',
                 'PRECISION', 'TYPE', 'SLOPE-ORDER', 'INT-INTERCEPT', 'CONV-RANGE', 'TABLE-WIDTH', 'DATA-EXACT', 'BACK-GUARD', 'SELECT-RANGE'}
 
 
